@@ -171,6 +171,21 @@ def resolved_refs(raw):
     return out
 
 
+def source_tables_differ(ra, rb):
+    """the tables a MIR carries about its source — the references (as a set: indices may be renamed) and the embedded
+    files — belong to that MIR: what an earlier compilation referred to is not part of them"""
+    ka = sorted(tuple(sorted(r.items())) for r in ra.get("source_refs", []))
+    kb = sorted(tuple(sorted(r.items())) for r in rb.get("source_refs", []))
+    if ka != kb:
+        extra = [dict(r) for r in ka if r not in kb][:1] or [dict(r) for r in kb if r not in ka][:1]
+        return f"the source reference table has {len(ka)} entries after the history and {len(kb)} alone (e.g. {extra[0] if extra else 'a repeated entry'})"
+    fa, fb = ra.get("source_files") or {}, rb.get("source_files") or {}
+    if fa != fb:
+        return f"the embedded source files are {sorted(fa)} after the history and {sorted(fb)} alone" if sorted(fa) != sorted(fb) \
+            else "the text of an embedded source file differs"
+    return None
+
+
 def entry_point_histories(res, tier):
     """Histories through the real entry points, with sharing: a generated program with several compile points is
     rendered as a chain of modules (K10) — program j consists of the shared modules 0..j and its own file.  Each
@@ -212,6 +227,8 @@ def entry_point_histories(res, tier):
                     if bad is not None:
                         text = f"source reference of {bad[:-1]} after the history designates {bad[-1]}, compiled alone it designates " \
                                f"{next(y for x, y in zip(ra, rb) if x != y)[-1]}"
+                    else:
+                        text = source_tables_differ(a["raw"], b["raw"])
             elif a.get("err") != b.get("err"):
                 text = f"after the history: {a.get('msg')}; alone: {b.get('msg')}"
             if text:
@@ -293,8 +310,8 @@ def fresh_process_histories(res, tier):
                         bad = next(((x, y) for x, y in zip(ra, rb) if x != y), None)
                         if bad is not None:
                             text = f"source reference of {bad[0][:-1]} after the history designates {bad[0][-1]}, compiled alone it designates {bad[1][-1]}"
-                        elif via == "script" and a["mir"].get("source_files") != b["mir"].get("source_files"):
-                            text = "the embedded source files differ"
+                        else:
+                            text = source_tables_differ(a["mir"], b["mir"])
                 elif a.get("err") != b.get("err"):
                     text = f"after the history: {a.get('msg')}; alone: {b.get('msg')}"
                 if text:
